@@ -832,6 +832,7 @@ def generate_attr_defaults_init(
             builder.add(Return(builder.false()))
             builder.activate_block(continue_block)
 
+        initialized: set[str] = set()
         for stmt, origin_module in default_assignments:
             lvalue = stmt.lvalues[0]
             assert isinstance(lvalue, NameExpr), lvalue
@@ -850,7 +851,16 @@ def generate_attr_defaults_init(
             finally:
                 builder.globals_lookup_module = None
             init = SetAttr(self_var, lvalue.name, val, stmt.rvalue.line)
-            init.mark_as_initializer()
+            # A default that overrides an inherited default replaces a value that is
+            # already set (by an earlier assignment here, or by the parent's setup),
+            # and the old value must be released.
+            overrides = lvalue.name in initialized or (
+                parent_with_defaults is not None
+                and any(lvalue.name in ancestor.attributes for ancestor in cls.mro[1:])
+            )
+            if not overrides:
+                init.mark_as_initializer()
+            initialized.add(lvalue.name)
             builder.add(init)
 
         builder.add(Return(builder.true()))
